@@ -284,6 +284,9 @@ def model_specs(draw, prof: Profile = Profile()):
     functions = b.functions
     params = b.params
     params["beta"] = d.num(0.3, 1.0, 3)
+    if d.bool(0.08):
+        # discount factors at and beyond 1 (growth-adjusted effective discounting; finite horizon)
+        params["beta"] = d.choice([1.0, 1.25, 1.6])
     touched = set()  # states that enter utility / constraint / filter
 
     # --------------------------------------------------------------- filters
